@@ -3358,6 +3358,221 @@ static void mf_unit_fn(void *arg)
     ABT_self_get_last_pool(&u->last_after);
 }
 
+
+/* ---------------------------------------------------------------------------
+ * mode xcancel: unnamed ULTs that live in a pool shared by several streams are
+ * cancelled while they sit in the pool, so the cancellation is carried out by
+ * whichever stream pops them next - often not the stream they last ran on -
+ * while every stream keeps allocating and freeing unnamed ULTs from its local
+ * memory pools.  Oracles: TSan/ASan on the memory pools, a registry of live
+ * stacks (no two live ULTs on overlapping stacks), a pattern at the far end of
+ * every live stack, exactly-once starts, pools empty at the end.
+ * ------------------------------------------------------------------------- */
+#define XC_MAXV 64
+#define XC_SLOTS 512
+typedef struct {
+    ABT_thread th;    /* published by the victim itself */
+    int published, starts, slices, cancel_sent;
+    int slot;
+    int last_rank, rank_changes;
+} xc_victim_t;
+static struct {
+    ABT_pool shared;
+    xc_victim_t v[XC_MAXV];
+    int nv;
+    int stop;
+    uintptr_t lo[XC_SLOTS], hi[XC_SLOTS]; /* live stacks; lo == 0: free slot */
+    int churn_done;
+} g_xc;
+static int c_xc_scen, c_xc_victims, c_xc_cancel_in_pool, c_xc_children, c_xc_stack_checks, c_xc_moved;
+static int xc_stack_enter(void)
+{
+    ABT_thread self;
+    ABT_thread_attr attr;
+    void *addr = NULL;
+    size_t sz = 0;
+    ABT_self_get_thread(&self);
+    if (ABT_thread_get_attr(self, &attr) != ABT_SUCCESS)
+        return -1;
+    ABT_thread_attr_get_stack(attr, &addr, &sz);
+    ABT_thread_attr_free(&attr);
+    if (!addr || !sz)
+        return -1;
+    uintptr_t lo = (uintptr_t)addr, hi = lo + sz;
+    int mine = -1;
+    for (int i = 0; i < XC_SLOTS && mine < 0; i++) {
+        uintptr_t z = 0;
+        if (__atomic_load_n(&g_xc.lo[i], __ATOMIC_SEQ_CST) == 0 &&
+            __atomic_compare_exchange_n(&g_xc.lo[i], &z, (uintptr_t)1, 0, __ATOMIC_SEQ_CST, __ATOMIC_SEQ_CST)) {
+            __atomic_store_n(&g_xc.hi[i], hi, __ATOMIC_SEQ_CST);
+            __atomic_store_n(&g_xc.lo[i], lo, __ATOMIC_SEQ_CST);
+            mine = i;
+        }
+    }
+    for (int i = 0; i < XC_SLOTS; i++) {
+        if (i == mine)
+            continue;
+        uintptr_t l = __atomic_load_n(&g_xc.lo[i], __ATOMIC_SEQ_CST), h = __atomic_load_n(&g_xc.hi[i], __ATOMIC_SEQ_CST);
+        if (l > 1 && l < hi && lo < h) {
+            vrt_violation("mem:stack-shared-by-two-live-ults", "a starting ULT got the stack %p..%p, which overlaps the stack "
+                          "%p..%p of a ULT that has not terminated", (void *)lo, (void *)hi, (void *)l, (void *)h);
+            break;
+        }
+    }
+    vrt_count(c_xc_stack_checks, 1);
+    return mine;
+}
+static void xc_stack_leave(int slot)
+{
+    if (slot >= 0) {
+        __atomic_store_n(&g_xc.hi[slot], 0, __ATOMIC_SEQ_CST);
+        __atomic_store_n(&g_xc.lo[slot], 0, __ATOMIC_SEQ_CST);
+    }
+}
+static void xc_victim_fn(void *arg)
+{
+    xc_victim_t *v = (xc_victim_t *)arg;
+    if (__atomic_add_fetch(&v->starts, 1, __ATOMIC_SEQ_CST) != 1)
+        vrt_violation("life:not-started-exactly-once", "an unnamed ULT that is to be cancelled was started twice");
+    v->slot = xc_stack_enter();
+    ABT_self_get_thread(&v->th);
+    ABT_self_get_xstream_rank(&v->last_rank);
+    volatile unsigned char pat[256];
+    for (int i = 0; i < 256; i++)
+        pat[i] = (unsigned char)(i ^ (int)(uintptr_t)v);
+    __atomic_store_n(&v->published, 1, __ATOMIC_SEQ_CST);
+    for (;;) {
+        ABT_thread_yield();
+        int rk = -1;
+        ABT_self_get_xstream_rank(&rk);
+        if (rk != v->last_rank) {
+            v->last_rank = rk;
+            v->rank_changes++;
+        }
+        __atomic_fetch_add(&v->slices, 1, __ATOMIC_SEQ_CST);
+        for (int i = 0; i < 256; i++)
+            if (pat[i] != (unsigned char)(i ^ (int)(uintptr_t)v)) {
+                vrt_violation("mem:live-stack-overwritten", "the stack of a live unnamed ULT was overwritten while it sat in "
+                              "the pool");
+                break;
+            }
+        if (vrt_num_violations())
+            break;
+    }
+}
+static void xc_child_fn(void *arg)
+{
+    (void)arg;
+    int slot = xc_stack_enter();
+    volatile unsigned char pat[128];
+    for (int i = 0; i < 128; i++)
+        pat[i] = (unsigned char)(i * 7);
+    ABT_thread_yield();
+    for (int i = 0; i < 128; i++)
+        if (pat[i] != (unsigned char)(i * 7)) {
+            vrt_violation("mem:live-stack-overwritten", "the stack of a live unnamed ULT was overwritten across a yield");
+            break;
+        }
+    xc_stack_leave(slot);
+    vrt_count(c_xc_children, 1);
+}
+/* one per stream, in the stream's private pool: keeps the stream's local
+ * memory pools busy (unnamed ULTs: descriptor and stack come from and go back
+ * to the local pools of the stream that creates / terminates them) */
+static void xc_churn_fn(void *arg)
+{
+    ABT_pool mine = (ABT_pool)arg;
+    while (!__atomic_load_n(&g_xc.stop, __ATOMIC_SEQ_CST) && vrt_num_violations() == 0) {
+        for (int i = 0; i < 6; i++)
+            VRT_ABT(ABT_thread_create(mine, xc_child_fn, NULL, ABT_THREAD_ATTR_NULL, NULL));
+        for (int i = 0; i < 8; i++)
+            ABT_thread_yield();
+    }
+    __atomic_fetch_add(&g_xc.churn_done, 1, __ATOMIC_SEQ_CST);
+}
+static void run_xcancel(vrt_rng *r, int idx)
+{
+    (void)idx;
+    memset(&g_xc, 0, sizeof(g_xc));
+    VRT_ABT(ABT_init(0, NULL));
+    int nes = 2 + (int)vrt_range(r, 3);
+    static const int pk[] = { ABT_POOL_FIFO, ABT_POOL_RANDWS, ABT_POOL_FIFO };
+    VRT_ABT(ABT_pool_create_basic((ABT_pool_kind)pk[vrt_range(r, 3)], ABT_POOL_ACCESS_MPMC, ABT_FALSE, &g_xc.shared));
+    ABT_xstream xs[4];
+    ABT_pool priv[4];
+    ABT_thread churn[4];
+    for (int i = 0; i < nes; i++) {
+        ABT_pool two[2];
+        VRT_ABT(ABT_pool_create_basic(ABT_POOL_FIFO, ABT_POOL_ACCESS_MPMC, ABT_FALSE, &priv[i]));
+        /* the shared pool first or second */
+        int first = (int)vrt_range(r, 2);
+        two[first] = priv[i];
+        two[1 - first] = g_xc.shared;
+        VRT_ABT(ABT_xstream_create_basic(vrt_range(r, 2) ? ABT_SCHED_BASIC : ABT_SCHED_DEFAULT, 2, two, ABT_SCHED_CONFIG_NULL,
+                                         &xs[i]));
+        VRT_ABT(ABT_thread_create(priv[i], xc_churn_fn, (void *)priv[i], ABT_THREAD_ATTR_NULL, &churn[i]));
+    }
+    g_xc.nv = 8 + (int)vrt_range(r, XC_MAXV - 8);
+    for (int i = 0; i < g_xc.nv; i++)
+        VRT_ABT(ABT_thread_create(g_xc.shared, xc_victim_fn, &g_xc.v[i], ABT_THREAD_ATTR_NULL, NULL));
+    /* cancel every victim once it has published itself and run a few slices */
+    int left = g_xc.nv;
+    while (left > 0 && vrt_num_violations() == 0) {
+        for (int i = 0; i < g_xc.nv; i++) {
+            xc_victim_t *v = &g_xc.v[i];
+            if (v->cancel_sent || !__atomic_load_n(&v->published, __ATOMIC_SEQ_CST) ||
+                __atomic_load_n(&v->slices, __ATOMIC_SEQ_CST) < 2 + (int)(vrt_range(r, 6)))
+                continue;
+            /* the stack stops being "live" no later than the cancellation */
+            xc_stack_leave(v->slot);
+            ABT_thread_state st = ABT_THREAD_STATE_RUNNING;
+            ABT_thread_get_state(v->th, &st);
+            VRT_ABT(ABT_thread_cancel(v->th));
+            if (st == ABT_THREAD_STATE_READY)
+                vrt_count(c_xc_cancel_in_pool, 1);
+            v->cancel_sent = 1;
+            left--;
+            vrt_count(c_xc_victims, 1);
+            if (v->rank_changes)
+                vrt_count(c_xc_moved, 1);
+        }
+        ABT_thread_yield();
+    }
+    /* the shared pool drains: every cancelled victim is terminated by the
+     * stream that pops it (bounded by the supervisor's watchdog) */
+    vrt_call_begin("draining a shared pool whose units have all been cancelled");
+    for (;;) {
+        size_t tot = 1;
+        VRT_ABT(ABT_pool_get_total_size(g_xc.shared, &tot));
+        if (tot == 0 || vrt_num_violations())
+            break;
+        ABT_thread_yield();
+    }
+    vrt_call_end();
+    __atomic_store_n(&g_xc.stop, 1, __ATOMIC_SEQ_CST);
+    for (int i = 0; i < nes; i++)
+        VRT_ABT(ABT_thread_free(&churn[i]));
+    for (int i = 0; i < nes; i++) {
+        VRT_ABT(ABT_xstream_join(xs[i]));
+        VRT_ABT(ABT_xstream_free(&xs[i]));
+    }
+    for (int i = 0; i < g_xc.nv && vrt_num_violations() == 0; i++)
+        VRT_CHECK(g_xc.v[i].starts == 1, "life:not-started-exactly-once", "victim %d started %d times", i, g_xc.v[i].starts);
+    if (vrt_num_violations() == 0)
+        for (int i = 0; i < XC_SLOTS; i++)
+            if (g_xc.lo[i]) {
+                vrt_violation("mem:stack-registry-leak", "a ULT that registered its stack never unregistered it although all "
+                              "streams were joined");
+                break;
+            }
+    if (vrt_num_violations())
+        return;
+    VRT_ABT(ABT_finalize());
+    vrt_count(c_xc_scen, 1);
+    vrt_count(c_cases, 1);
+    vrt_signature_add("xc:es%d,v%d", nes, g_xc.nv > 32);
+}
+
 static void mig_observer(int id)
 {
     if (id == ABTI_VERIF_P_MIGRATE_BEFORE_CLEAR)
@@ -3830,6 +4045,16 @@ int main(int argc, char **argv)
         int n = (int)vrt_arg_int("scenarios", 60);
         for (int i = 0; i < n && vrt_num_violations() == 0; i++)
             run_joinmix(&r, i);
+    } else if (!strcmp(mode, "xcancel")) {
+        c_xc_scen = vrt_counter("xcancel_scenarios");
+        c_xc_victims = vrt_counter("unnamed_ults_cancelled_in_shared_pool");
+        c_xc_cancel_in_pool = vrt_counter("cancel_requests_sent_while_unit_was_ready_in_pool");
+        c_xc_children = vrt_counter("unnamed_ults_churned_through_local_memory_pools");
+        c_xc_stack_checks = vrt_counter("live_stack_overlap_checks");
+        c_xc_moved = vrt_counter("cancelled_units_that_had_changed_streams");
+        int n = (int)vrt_arg_int("scenarios", 20);
+        for (int i = 0; i < n && vrt_num_violations() == 0; i++)
+            run_xcancel(&r, i);
     } else if (!strcmp(mode, "blockmig")) {
         c_mbscen = vrt_counter("blockmig_scenarios");
         for (int i = 0; i < MB_NKINDS; i++) {
